@@ -227,7 +227,26 @@ class H:
             finally:
                 sim.log("svc_end", svc=name)
 
-        await start_service_task(body, name)
+        action = spec.get("action")
+        if action in ("araise", "sraise"):
+            # a teardown action that fails (when called, or only when awaited): the task is
+            # cancelled instead and teardown goes on as if nothing had happened
+            if action == "araise":
+
+                async def act() -> None:
+                    sim.log("svc_action", svc=name)
+                    await anyio.lowlevel.checkpoint()
+                    raise SimError(f"teardown action of {name}")
+
+            else:
+
+                def act() -> None:  # type: ignore[misc]
+                    sim.log("svc_action", svc=name)
+                    raise SimError(f"teardown action of {name}")
+
+            await start_service_task(body, name, teardown_action=act)
+        else:
+            await start_service_task(body, name)
         sim.log("svc_reg", svc=name)
 
     async def on_run(self, inst: Any) -> Any:
@@ -583,7 +602,10 @@ def gen(rng: random.Random, tier: str, prop: str) -> dict:
                 out.append(["td", spec])
             elif allow_svc and nsvc[0] < 3:
                 nsvc[0] += 1
-                out.append(["svc", {"name": f"s{nsvc[0]}"}])
+                sv: dict[str, Any] = {"name": f"s{nsvc[0]}"}
+                if rng.random() < 0.3:
+                    sv["action"] = rng.choice(("araise", "sraise"))
+                out.append(["svc", sv])
         return out
 
     cli = rng.random() < 0.5
